@@ -31,7 +31,7 @@ REPORT = os.path.join(ROOT, "selftest_report.json")
 # observed fields whose corruption must be rejected by the judge (regex on the leaf path), per judge configuration
 MUST_BIND = {
     "Trace_Aisle": [r"^obs\.st$", r"^obs\.cats\[\d+\]\.name$", r"^obs\.cats\[\d+\]\.igrs\[\d+\]\.names$"],
-    "Trace_Fraction": [r"^obs\.num$", r"^obs\.den$", r"^obs\.whole$"],
+    "Trace_Fraction": [r"^obs\.num$", r"^obs\.errWithin$", r"^obs\.exact$"],
     "Trace_Ffi": [r"^obs\.selected$", r"^obs\.keys$", r"^obs\.sublist$"],
     "Trace_Shared": [r"^hash$"],
     "Trace_Group": [r"^obs\.steps\[\d+\]\.totals$"],
@@ -65,8 +65,7 @@ def leaves(x, path=""):
     elif isinstance(x, list):
         yield path, x
         for i, v in enumerate(x):
-            if isinstance(v, (dict, list)):
-                yield from leaves(v, f"{path}[{i}]")
+            yield from leaves(v, f"{path}[{i}]")
     else:
         yield path, x
 
@@ -95,6 +94,7 @@ OBSERVED = {
     "Trace_Subsets": r"^(imgs|errs)",
     "Trace_Variants": r"^(base\.|vars\[\d+\]\.obs\.)",
     "Trace_Shared": r"^hash$",
+    "Trace_List": r"^obs\.(?!aisle)",          # obs.aisle echoes the fixed aisle file
 }
 
 
@@ -138,6 +138,81 @@ def corrupt_all(module, recs, rng):
     return out
 
 
+DISCRIMINATORS = re.compile(r"(^|\.)(kind|st|t|outcome|type|cls|ev|k)$")
+
+
+def signature(x):
+    """shape of a value: keys, list lengths, scalar types - two values of one shape can stand in for each other"""
+    if isinstance(x, dict):
+        return tuple((k, signature(v)) for k, v in sorted(x.items()))
+    if isinstance(x, list):
+        return ("L", tuple(signature(v) for v in x))
+    if isinstance(x, str):
+        return "s"
+    return type(x).__name__
+
+
+def swap_all(module, cfg, recs):
+    """every record gets the observed part of the next record with the same shape and a different content"""
+    # relational judges compare two observed parts with each other: only one side is exchanged
+    # (C06 and the list half of C10 relate parts of one observed model to each other: another recipe's model is as consistent)
+    only = {"Trace_Meta": {"only"}, "Trace_Variants": {"base"}, "Trace_Subsets": set(), "Trace_List": set(),
+            "Trace_Doc/Trace_Doc_C06.cfg": set()}
+    if f"{module}/{cfg}" in only:
+        only[module] = only[f"{module}/{cfg}"]
+
+    def obs_of(r):
+        ks = {p.split(".")[0].split("[")[0] for p, _ in leaves(r) if observed(module, p, r)}
+        return ks & only[module] if module in only else ks
+    out = []
+    sigs = []
+    for r in recs:
+        keys = sorted(obs_of(r))
+        sigs.append((tuple(keys), signature({k: r[k] for k in keys})))
+    for i, r in enumerate(recs):
+        keys, sg = sigs[i]
+        if not keys:
+            continue
+        for j in list(range(i + 1, len(recs))) + list(range(0, i)):
+            if sigs[j] == (keys, sg) and any(recs[j][k] != r[k] for k in keys):
+                c = json.loads(json.dumps(r))
+                for k in keys:
+                    c[k] = json.loads(json.dumps(recs[j][k]))
+                out.append((i, c, "<observed part>", f"observed part of record {j + 1} put into record {i + 1}"))
+                break
+    return out
+
+
+def judge_chunked(ctx, module, cfg, cor, tag):
+    """-> (bad lines, note lines, indices the judge could not evaluate)"""
+    path = os.path.join(ctx.work, f"{tag}.ndjson")
+    core.write_ndjson(path, [c[1] for c in cor])
+    try:
+        n, bad, notes = core.run_judge(ctx, module, path, cfg=cfg)
+        return {l: nm for l, nm in bad}, {l: nm for l, nm in notes}, set()
+    except core.ToolError:
+        pass
+    badl, notel, errs = {}, {}, set()
+    size = 20
+    for a in range(0, len(cor), size):
+        chunk = cor[a:a + size]
+        core.write_ndjson(path, [c[1] for c in chunk])
+        try:
+            n, bad, notes = core.run_judge(ctx, module, path, cfg=cfg)
+            badl.update({a + l: nm for l, nm in bad})
+            notel.update({a + l: nm for l, nm in notes})
+        except core.ToolError:
+            for k in range(len(chunk)):      # one by one: the corruption left the domain the judge is written for
+                core.write_ndjson(path, [chunk[k][1]])
+                try:
+                    n, bad, notes = core.run_judge(ctx, module, path, cfg=cfg)
+                    badl.update({a + k + l: nm for l, nm in bad})
+                    notel.update({a + k + l: nm for l, nm in notes})
+                except core.ToolError:
+                    errs.add(a + k + 1)
+    return badl, notel, errs
+
+
 def part_corrupt(report):
     reuse = os.environ.get("SELFTEST_CAP")      # development aid: traces captured by an earlier run
     cap = reuse or os.path.join(core.WORK, "selftest-cap")
@@ -170,27 +245,13 @@ def part_corrupt(report):
         if not cor:
             res[f] = dict(records=len(recs), corrupted=0)
             continue
-        cpath = os.path.join(ctx.work, f"cor-{f}")
-        core.write_ndjson(cpath, [c[1] for c in cor])
-        try:
-            n, bad, notes = core.run_judge(ctx, module, cpath, cfg=cfg)
-        except core.ToolError as e:
-            # a corruption outside the domain the judge is written for: retry one by one is too slow; report
-            res[f] = dict(records=len(recs), corrupted=len(cor), error=str(e)[:300])
-            outs = sorted((os.path.join(dp, "out.txt") for dp, _, fn in os.walk(ctx.work) if "out.txt" in fn), key=os.path.getmtime)
-            if outs:
-                print("".join(open(outs[-1], errors="replace").readlines()[-25:]))
-            print(f"selftest corrupt {module}/{cfg}: judge could not evaluate a corrupted trace: {str(e)[:200]}")
-            ok = False
-            continue
-        badl = {l: names for l, names in bad}
-        notel = {l: names for l, names in notes}
+        badl, notel, errs = judge_chunked(ctx, module, cfg, cor, f"cor-{f}")
         base_notes = {l for l, _ in notes0}
         by_field = collections.defaultdict(lambda: [0, 0, 0])
         missed_must = []
         for k, (i, c, p, desc) in enumerate(cor, start=1):
             g = generic(p)
-            if k in badl:
+            if k in badl or k in errs:     # a record the judge cannot even evaluate is not accepted either
                 by_field[g][0] += 1
             elif k in notel and (i + 1) not in base_notes:
                 by_field[g][1] += 1
@@ -205,7 +266,16 @@ def part_corrupt(report):
         res[f] = dict(records=len(recs), corrupted=len(cor), rejected=nb, drift_noted=nn, unnoticed=nm,
                       by_field={k: dict(rejected=v[0], noted=v[1], unnoticed=v[2]) for k, v in sorted(by_field.items())},
                       must_bind_missed=missed_must[:10])
-        print(f"selftest corrupt {module}/{cfg}: {len(cor)} single-field corruptions: {nb} rejected, {nn} drift-noted, {nm} unnoticed")
+        print(f"selftest corrupt {module}/{cfg}: {len(cor)} single-field corruptions: {nb} rejected, {nn} drift-noted, {nm} unnoticed"
+              + (f" ({len(errs)} not evaluable)" if errs else ""))
+        sw = [c for c in swap_all(module, cfg, recs) if (c[0] + 1) not in clean]
+        if sw:
+            sb, sn, se = judge_chunked(ctx, module, cfg, sw, f"swap-{f}")
+            rej = sum(1 for k in range(1, len(sw) + 1) if k in sb or k in se)
+            noted = sum(1 for k, c in enumerate(sw, start=1) if k not in sb and k not in se and k in sn and (c[0] + 1) not in base_notes)
+            res[f]["swapped"] = dict(records=len(sw), rejected=rej, drift_noted=noted, unnoticed=len(sw) - rej - noted)
+            print(f"selftest corrupt {module}/{cfg}: {len(sw)} records with another record's observed part: {rej} rejected, {noted} drift-noted, "
+                  f"{len(sw) - rej - noted} unnoticed")
         if missed_must:
             ok = False
             print(f"  MUST-BIND field not rejected: {missed_must[:3]}")
